@@ -4,6 +4,7 @@ import (
 	. "github.com/glyphlang/glyph/pkg/ast"
 
 	"fmt"
+	"sort"
 	"strings"
 )
 
@@ -432,8 +433,10 @@ func (i *Interpreter) executeFor(stmt ForStatement, env *Environment) (interface
 			}
 		}
 	} else if obj, ok := iterable.(map[string]interface{}); ok {
-		// Iterate over object/map
-		for key, value := range obj {
+		// Iterate over object/map in key order: Go's map order is random, and
+		// the outcome of a program must not depend on it
+		for _, key := range sortedObjectKeys(obj) {
+			value := obj[key]
 			// Create a fresh environment for each iteration
 			loopEnv := NewChildEnvironment(env)
 
@@ -719,4 +722,14 @@ func (i *Interpreter) assignToTarget(target Expr, value interface{}, env *Enviro
 	default:
 		return nil, fmt.Errorf("invalid assignment target: %T", target)
 	}
+}
+
+// sortedObjectKeys returns the keys of an object in ascending order.
+func sortedObjectKeys(obj map[string]interface{}) []string {
+	keys := make([]string, 0, len(obj))
+	for k := range obj {
+		keys = append(keys, k)
+	}
+	sort.Strings(keys)
+	return keys
 }
